@@ -1,2 +1,51 @@
-(** C06 - placeholder while the proofs are being written. *)
-From E57 Require Import Base.Prelude.
+(** C06 - Blobs and image payloads round-trip byte-exactly.
+    Statements only; every proof is an [exact] of a lemma proved in Proofs/.
+    An image's data and mask are blob sections; which descriptor the XML
+    attaches to which image is part of C04. *)
+From E57 Require Import Base.Prelude Model.Device Model.PagedWriter Model.PagedReader Model.Record
+  Model.Prog Model.QueueReader Model.PcWriter Model.FileBin Model.ReaderOpen
+  Spec.PageSpec Spec.FormatSpec
+  Proofs.BlobProofs Proofs.FileRtWriter Proofs.FileRtReader Proofs.FileRtMain.
+
+(** For ANY list of items (blobs of every length from zero upward, at every
+    position relative to page boundaries and to other sections - the position is
+    universally quantified through the item list), the file opens and every
+    blob descriptor the writer published leads to exactly that blob's bytes,
+    after any earlier page-layer history on the same reader (this is one
+    conjunct of [roundtrip_ok]; the other is the point clouds, C01). *)
+Theorem C06_file_roundtrip : forall (is : list item) (xml : list N),
+  forallb item_wf is = true -> xml <> [] -> len xml <= MAX_XML_SIZE ->
+  ls_phys_size (final_stream is xml) < 2 ^ 64 ->
+  roundtrip_ok is xml.
+Proof. exact file_roundtrip_xml. Qed.
+
+(** What [Blob::write] appends: header with the section length patched in, the
+    data, zero padding to a multiple of four; the published offset is the
+    physical position of the section start, the published length the data length. *)
+Theorem C06_blob_write : forall (data : list N) (l0 : lstream),
+  ls_pos l0 = len (ls_data l0) -> len (ls_data l0) mod 4 = 0 ->
+  exists l1,
+    wrun_spec (blob_write data) l0 = (l1, Ok (phys_of_log (len (ls_data l0)), len data)) /\
+    ls_data l1 = ls_data l0 ++ blob_section data /\
+    ls_pos l1 = len (ls_data l1) /\ len (ls_data l1) mod 4 = 0.
+Proof. exact blob_write_spec. Qed.
+
+(** Reading a blob never silently returns fewer, more or other bytes than the
+    descriptor's length: for ANY stream contents, descriptor and starting
+    offset, a successful read has exactly the requested length. *)
+Theorem C06_exact_or_err : forall (log : list N) (log_size offset length off0 : N) (bs : list N),
+  snd (rrun_spec log (blob_read log_size offset length) off0) = Ok bs -> len bs = length.
+Proof. exact blob_read_exact_or_err. Qed.
+
+(** A blob section anywhere in a stream is read back exactly. *)
+Theorem C06_blob_read : forall (data pre post log : list N),
+  log = pre ++ blob_section data ++ post ->
+  len log mod 1020 = 0 -> len data < 2 ^ 64 ->
+  blob_section_length_fits_u64 data ->
+  snd (rrun_spec log (blob_read (len log) (phys_of_log (len pre)) (len data)) 0) = Ok data.
+Proof. exact blob_read_spec. Qed.
+
+Print Assumptions C06_file_roundtrip.
+Print Assumptions C06_blob_write.
+Print Assumptions C06_exact_or_err.
+Print Assumptions C06_blob_read.
